@@ -6,6 +6,7 @@ trap 'git -C /repo checkout -- . 2>/dev/null' EXIT
 if [ -n "$(git -C /repo status --short)" ]; then echo "/repo is not clean"; exit 2; fi
 out=${1:-/tmp/seed_sweep.log}; : > $out
 for d in /verif/seeded/*/; do
+  if [ -n "$SEED_FILTER" ] && ! [[ "$(basename $d)" =~ $SEED_FILTER ]]; then continue; fi
   name=$(basename $d); prop=${name%%-*}
   if ! git -C /repo apply --check $d/patch.diff 2>/dev/null; then
     if git -C /repo apply --3way $d/patch.diff >/dev/null 2>&1 && [ -z "$(git -C /repo diff --name-only --diff-filter=U)" ]; then :; else
